@@ -227,6 +227,29 @@ static void doc_family(FILE *out, vf::Rng &rng, int w, bool families) {
     // the document followed by a non-whitespace unit
     static const long SUF[] = {',', ']', '}', '0', 'x', '"', ':', '[', '{', 0, 'n'};
     for (long sfx : SUF) { std::vector<long> c(t); c.push_back(sfx); event<Ch>(out, w, "suffix", c); }
+    // (once per width) every hex digit of a \\u escape - single, surrogate pair, in a key - replaced by units around the hex ranges and by
+    // units with the top bit set (negative for the signed character types: an index computed from the unit must not go astray)
+    static bool hexbad_done[3] = {false, false, false};
+    int wi = (w == 8) ? 0 : (w == 16) ? 1 : 2;
+    if (!hexbad_done[wi]) {
+        hexbad_done[wi] = true;
+        static const char *BASE[] = {"[\"\\u00e9\"]", "[\"x\\uD83D\\uDE00y\"]", "{\"k\\u0041\":\"\\u0042\"}", "[\"\\uFFFF\"", "[\"\\u12"};
+        static const long  BAD[]  = {0x80, 0xC3, 0xE9, 0xFF, 'g', 'G', '/', ':', '@', '`', 0, ' ', '"', '\\', 0x141, 0x8041, 0x10041, 0x7FFFFF41L};
+        for (const char *b : BASE) {
+            std::vector<long> base;
+            for (const char *q = b; *q; ++q) base.push_back((unsigned char)*q);
+            for (size_t i = 0; i + 1 < base.size(); ++i) {
+                if (base[i] != '\\' || base[i + 1] != 'u') continue;
+                for (size_t d = i + 2; d < i + 6 && d < base.size(); ++d)
+                    for (long bad : BAD) {
+                        if ((w == 8 && (bad > 0xFF || bad < 0)) || (w == 16 && (bad > 0xFFFF || bad < 0))) continue;
+                        std::vector<long> m(base);
+                        m[d] = bad;
+                        event<Ch>(out, w, "hexbad", m);
+                    }
+            }
+        }
+    }
     // a structural closing bracket replaced by the other kind / removed
     bool in_str = false;
     for (size_t i = 0; i < t.size(); ++i) {
